@@ -156,6 +156,8 @@ def run_job(args):
         if cfg.get("control"):
             E.max_cex = 3
             E.known = []
+        if cfg.get("split_forks") and not cfg.get("prefixes"):
+            E.split_forks = cfg["split_forks"]
         nval = cfg.get("validate", 6 if tier == "quick" else 25)
         E.keep_records = 0
         rng = random.Random(seed * 7919 + hash(cfg["name"]) % 100003)
@@ -194,6 +196,7 @@ def run_job(args):
         eng.set_engine(E)
         E.explore(lambda e: prop.program(e, cfg), prefixes=cfg.get("prefixes"))
         out["stats"] = E.stats()
+        out["shards"] = [p for p, nf in E.shards]
         out["cex"] = E.cex
         out["cex_overflow"] = getattr(E, "cex_overflow", 0)
         out["unknown"] = E.unknown[:50]
@@ -305,13 +308,33 @@ def run_check(pid, tier, seed, only=None, jobs=None):
     ctx = mp.get_context("fork")
     results = []
     with ctx.Pool(nproc, maxtasksperchild=8) as pool:
-        for r in pool.imap_unordered(run_job, [(pid, c, tier, seed) for c in allcfg]):
-            results.append(r)
-            if os.environ.get("VERIF_VERBOSE"):
-                st = r.get("stats", {})
-                print("  [%s] paths=%s obl=%s cex=%s unk=%s wall=%ss %s" % (
-                    r["name"], st.get("paths"), st.get("obligations"), st.get("cex"),
-                    st.get("unknown"), r["wall"], (r["error"] or "")[:300]), flush=True)
+        pending = [pool.apply_async(run_job, ((pid, c, tier, seed),)) for c in allcfg]
+        while pending:
+            still = []
+            for ar in pending:
+                if not ar.ready():
+                    still.append(ar)
+                    continue
+                r = ar.get()
+                results.append(r)
+                # a split job hands back the unexplored subtrees as shards
+                shards = r.get("shards") or []
+                ngroups = min(len(shards), 40 * nproc)
+                for i in range(ngroups):
+                    c2 = dict(r["cfg"])
+                    c2["prefixes"] = shards[i::ngroups]
+                    c2["name"] = "%s#%d" % (r["cfg"]["name"], i)
+                    c2["base"] = r["cfg"]["name"]
+                    still.append(pool.apply_async(run_job, ((pid, c2, tier, seed),)))
+                if os.environ.get("VERIF_VERBOSE"):
+                    st = r.get("stats", {})
+                    print("  [%s] paths=%s obl=%s cex=%s unk=%s shards=%s wall=%ss %s" % (
+                        r["name"], st.get("paths"), st.get("obligations"), st.get("cex"),
+                        st.get("unknown"), len(shards), r["wall"], (r["error"] or "")[:300]),
+                        flush=True)
+            pending = still
+            if pending:
+                time.sleep(0.05)
     results.sort(key=lambda r: r["name"])
     return finish(pid, prop, tier, seed, results, time.time() - t0)
 
@@ -323,7 +346,55 @@ def load_known():
     return dict(findings=[], fixed=[])
 
 
+def merge_shards(results):
+    """fold the shard jobs of a configuration back into one record"""
+    by = {}
+    order = []
+    for r in results:
+        base = r["cfg"].get("base", r["cfg"]["name"])
+        if base not in by:
+            order.append(base)
+            by[base] = None
+        m = by[base]
+        if r["error"]:
+            if m is None:
+                by[base] = dict(r, name=base)
+            else:
+                m["error"] = (m["error"] or "") + r["error"]
+            continue
+        if m is None:
+            m = dict(r)
+            m["name"] = base
+            m["cfg"] = dict(r["cfg"], name=base)
+            m["cfg"].pop("prefixes", None)
+            m["cfg"].pop("base", None)
+            m["stats"] = dict(r["stats"])
+            m["cex"] = list(r["cex"])
+            m["unknown"] = list(r["unknown"])
+            m["samples"] = list(r["samples"])
+            m["trace_mismatch"] = list(r["trace_mismatch"])
+            m["funcs"] = list(r["funcs"])
+            m["jobs"] = 1
+            by[base] = m
+            continue
+        for k, v in r["stats"].items():
+            if isinstance(v, bool):
+                m["stats"][k] = m["stats"][k] or v
+            else:
+                m["stats"][k] = m["stats"][k] + v
+        m["cex"] += r["cex"]
+        m["unknown"] += r["unknown"]
+        m["samples"] += r["samples"]
+        m["trace_mismatch"] += r["trace_mismatch"]
+        m["funcs"] = sorted(set(m["funcs"]) | set(r["funcs"]))
+        m["validated"] += r["validated"]
+        m["wall"] = round(m["wall"] + r["wall"], 2)
+        m["jobs"] += 1
+    return [by[b] for b in order]
+
+
 def finish(pid, prop, tier, seed, results, wall):
+    results = merge_shards(results)
     problems = []        # inconclusive reasons
     violations = []
     known_hits = {}
